@@ -136,17 +136,36 @@ class C18(Check):
             apply_op(res, op)
         return res
 
+    def source_intact(self, scffld, src_ids, case, ctx):
+        """editing a lookup result must never change the scaffold it was taken from"""
+        if [id(r) for r in scffld.rows] != src_ids:
+            ctx.violation("source-scaffold-modified", case, f"source rows now {scffld.rows!r}")
+            return False
+        return True
+
     def explore_bait(self, spec, scffld, ia, src_map, a, b, ctx, only_hist=None):
-        res = self.fresh(ia, a, b, ())
-        if res is None:
-            return
         case0 = [[list(r) for r in spec], a, b]
         ctx.cur = case0
+        self._src_ids = [id(r) for r in scffld.rows]
+        try:
+            res = self.fresh(ia, a, b, ())
+        except Exception as e:  # noqa: BLE001
+            ctx.violation(f"lookup-raises:{type(e).__name__}", case0 + [[]], repr(e))
+            return
+        if res is None:
+            return
         if only_hist is not None:
             # replay mode: check every prefix of one history
             for n in range(len(only_hist) + 1):
                 h = tuple(tuple(op) for op in only_hist[:n])
-                r = self.fresh(ia, a, b, h)
+                try:
+                    r = self.fresh(ia, a, b, h)
+                except Exception as e:  # noqa: BLE001
+                    ctx.violation(f"lookup-raises:{type(e).__name__}", case0 + [[list(o) for o in h]], repr(e))
+                    return
+                if r is None:
+                    ctx.violation("lookup-result-changed-after-edits", case0 + [[list(o) for o in h]], "the same lookup now returns None")
+                    return
                 self.invariant(r, scffld, src_map, case0 + [[list(o) for o in h]], ctx)
                 if n < len(only_hist):
                     self.transition(ia, a, b, h, tuple(only_hist[n]), scffld, src_map, case0, ctx)
@@ -172,7 +191,15 @@ class C18(Check):
         ctx.outcome((tuple(spec), a, b, len(seen)))
 
     def transition(self, ia, a, b, hist, op, scffld, src_map, case0, ctx):
-        res = self.fresh(ia, a, b, hist)
+        case = case0 + [[list(o) for o in hist + (op,)]]
+        try:
+            res = self.fresh(ia, a, b, hist)
+        except Exception as e:  # noqa: BLE001
+            ctx.violation(f"lookup-raises:{type(e).__name__}", case, repr(e))
+            return None
+        if res is None:
+            ctx.violation("lookup-result-changed-after-edits", case, "the same lookup now returns None")
+            return None
         before = canon(res)
         pre = None
         if res.rows:
@@ -182,8 +209,9 @@ class C18(Check):
                 pre = None
         accepted = apply_op(res, op)
         ctx.transitions += 1
-        case = case0 + [[list(o) for o in hist + (op,)]]
         ctx.cur = case
+        if not self.source_intact(scffld, self._src_ids, case, ctx):
+            return None
         self.invariant(res, scffld, src_map, case, ctx)
         if not accepted:
             ctx.count("op_not_accepted")
